@@ -1575,9 +1575,11 @@ func (ex *Exec) execRange(p *Path, st *ast.RangeStmt) []outcome {
 			ex.havocLoopHeap(it, fieldWrites, unknownWrites)
 			keepLoop()
 			ex.assumeFrame(it)
-			if ex.traceEvents {
-				ex.havocGhostBody(it, st.Body)
-			}
+		}
+		if ex.traceEvents && os.Getenv("GOVC_SELFTEST_SKIP_LOOP_EVENT_HAVOC") == "" {
+			// (also when the body writes no modelled heap: a body that only prints still raises events; the environment
+			// variable re-creates the incident for the self-test of the later-iteration cover)
+			ex.havocGhostBody(it, st.Body)
 		}
 		i := ex.c.Fresh("i", "Int")
 		bind(it, i)
@@ -1587,6 +1589,14 @@ func (ex *Exec) execRange(p *Path, st *ast.RangeStmt) []outcome {
 		ex.assumeInvariants(it, invs)
 		exit := it.Clone()
 		it.Assume("(< " + i + " " + length + ")")
+		if len(invs) > 0 && ord > 0 && !ex.inContract() {
+			// reachability of a later iteration: if the assumptions at the loop head (havoc + invariants) force the first
+			// iteration, the invariants are only checked there and everything after the loop is proved for empty collections
+			// only (this is how a missing havoc of the event cells showed: count == old + i with count not forgotten gives i == 0)
+			later := it.Clone()
+			later.Assume("(> " + i + " 0)")
+			ex.addObl(later, fmt.Sprintf("%s#loop%d.cover.later_iteration", ex.funcKey, ord), "cover", "an iteration other than the first is reachable under the loop invariants", "false", st.Pos(), "")
+		}
 		if keyObj != nil {
 			it.vars[keyObj] = Value{i, types.Typ[types.Int]}
 		}
@@ -1653,9 +1663,11 @@ func (ex *Exec) execRange(p *Path, st *ast.RangeStmt) []outcome {
 			ex.havocLoopHeap(it, fieldWrites, unknownWrites)
 			keepLoop()
 			ex.assumeFrame(it)
-			if ex.traceEvents {
-				ex.havocGhostBody(it, st.Body)
-			}
+		}
+		if ex.traceEvents && os.Getenv("GOVC_SELFTEST_SKIP_LOOP_EVENT_HAVOC") == "" {
+			// (also when the body writes no modelled heap: a body that only prints still raises events; the environment
+			// variable re-creates the incident for the self-test of the later-iteration cover)
+			ex.havocGhostBody(it, st.Body)
 		}
 		d := ex.c.Fresh("done", doneSort)
 		bindDone(it, d)
@@ -1746,9 +1758,9 @@ func (ex *Exec) execFor(p *Path, st *ast.ForStmt) []outcome {
 		ex.havocLoopHeap(it, fieldWrites, unknownWrites)
 		keepLoop()
 		ex.assumeFrame(it)
-		if ex.traceEvents {
-			ex.havocGhostBody(it, st.Body)
-		}
+	}
+	if ex.traceEvents {
+		ex.havocGhostBody(it, st.Body)
 	}
 	ex.assumeInvariants(it, invs)
 	exit := it.Clone()
